@@ -11,7 +11,7 @@ Scratch copies live under $TMPDIR/bsseed.* and are removed when done."""
 import json, os, shutil, subprocess, sys, tempfile, glob
 
 VERIF = "/verif"
-REPO = "/repo"
+REPO = os.environ.get("BSCHECK_REPO", "/repo")
 GOBIN = "/opt/veriftools/go1.26.8/bin"
 
 def env():
@@ -101,7 +101,46 @@ def do_verify(sid, run_all):
     finally:
         shutil.rmtree(tmp, ignore_errors=True)
 
+def do_matrix(prop, out_json):
+    """Static part only: apply each kept change written against `prop` to a
+    scratch copy and run that property's check on it. No tests are run."""
+    rows = []
+    base = os.path.join(VERIF, "seeded")
+    for sid in sorted(os.listdir(base)):
+        d = os.path.join(base, sid)
+        if not os.path.isdir(d) or not sid.startswith(prop + "-"):
+            continue
+        tmp = tempfile.mkdtemp(prefix="bsseed.")
+        try:
+            work = os.path.join(tmp, "repo")
+            shutil.copytree(REPO, work, ignore=shutil.ignore_patterns(".git", "_seeded"))
+            rca, _ = sh(["git", "apply", "--whitespace=nowarn", os.path.join(d, "patch.diff")], work)
+            if rca != 0:
+                rca, _ = sh(["patch", "-p1", "-i", os.path.join(d, "patch.diff")], work)
+            row = {"id": sid, "patch_applies": rca == 0, "fired": []}
+            if rca == 0:
+                e = env(); e["BSCHECK_REPO"] = work; e["BSCHECK_VERIF"] = os.path.join(tmp, "verif")
+                os.makedirs(e["BSCHECK_VERIF"])
+                shutil.copy(os.path.join(VERIF, "known-findings.json"), e["BSCHECK_VERIF"])
+                c = subprocess.run([os.path.join(VERIF, "bin", "bscheck"), "-property", prop], env=e, capture_output=True, text=True)
+                fired = []
+                for line in c.stdout.splitlines():
+                    ls = line.strip()
+                    if (ls.startswith("VIOLATION ") and not ls.startswith("VIOLATION property")) or ls.startswith("UNDECIDED "):
+                        fired.append(ls.split()[1])
+                row["fired"] = sorted(set(fired))
+            row["status"] = "caught" if row["fired"] else ("MISSED" if row["patch_applies"] else "patch-does-not-apply")
+            rows.append(row)
+        finally:
+            shutil.rmtree(tmp, ignore_errors=True)
+    json.dump(rows, open(out_json, "w"), indent=1)
+    for r in rows:
+        print(r["id"], r["status"], r["fired"])
+
 if __name__ == "__main__":
+    if sys.argv[1] == "matrix":
+        do_matrix(sys.argv[2], sys.argv[3])
+        sys.exit(0)
     if sys.argv[1] == "import":
         do_import(sys.argv[2], sys.argv[3], sys.argv[4])
     elif sys.argv[1] == "verify":
